@@ -43,6 +43,7 @@ func sortedMapKeys(items map[string]map[string]struct{}) []string {
 }
 
 func withLock(path string, lockType int, fn func() error) error {
+	verifPoint("lock.open")
 	fd, err := syscall.Open(path, syscall.O_RDONLY, 0)
 	if err != nil && os.IsNotExist(err) {
 		// The lock file is not state; it's just the synchronization primitive.
@@ -58,6 +59,7 @@ func withLock(path string, lockType int, fn func() error) error {
 	defer syscall.Close(fd)
 
 	// Fail-fast: non-blocking lock attempt only
+	verifPoint("lock.try")
 	if err := syscall.Flock(fd, lockType|syscall.LOCK_NB); err != nil {
 		if errors.Is(err, syscall.EWOULDBLOCK) || errors.Is(err, syscall.EAGAIN) {
 			return ErrLockBusy
@@ -67,10 +69,13 @@ func withLock(path string, lockType int, fn func() error) error {
 	defer func() {
 		_ = syscall.Flock(fd, syscall.LOCK_UN)
 	}()
+	verifPoint("lock.held")
+	defer verifPoint("lock.release")
 	return fn()
 }
 
 func ensureFileExists(path string, mode os.FileMode) error {
+	verifPoint("ensure.stat")
 	info, err := os.Stat(path)
 	if err == nil {
 		if info.IsDir() {
@@ -81,6 +86,7 @@ func ensureFileExists(path string, mode os.FileMode) error {
 	if !errors.Is(err, os.ErrNotExist) {
 		return err
 	}
+	verifPoint("ensure.create")
 	if err := os.WriteFile(path, []byte{}, mode); err != nil {
 		return fmt.Errorf("cannot create %s: %w", path, err)
 	}
